@@ -90,9 +90,11 @@ class RTFFigureService:
             pic_width = int(width * 96)
             pic_height = int(height * 96)
 
-        # Convert display dimensions to twips
-        width_twips = int(width * 1440)
-        height_twips = int(height * 1440)
+        # Convert display dimensions to twips (rounded, like every other length)
+        from ..row import Utils
+
+        width_twips = Utils._inch_to_twip(width)
+        height_twips = Utils._inch_to_twip(height)
 
         # Add dimensions
         rtf_parts.extend(
